@@ -1,21 +1,1507 @@
-//! Monitor for property C05 (see /verif/DESIGN.md §6).
+//! Monitor for property C05 - compiled lig/kern programs equal direct interpretation; infinite
+//! loops reported exactly; conservation of the input word (see /verif/DESIGN.md §6, NOTES.md).
+//!
+//! Real code driven: `CompiledProgram::compile` (and `compile_from_tfm_file` for corpus fonts),
+//! `CompiledProgram::run_with_options`.
+//! Oracles (all in `vmodels::ligkern`, none of which calls /repo):
+//!   (a1) the cursor interpreter of the raw program, (a2) the transcription of TeX §1034-1040,
+//!   (b) the recursive pair evaluation of TFtoPL §88-95; kern amounts through
+//!   `vmodels::fontarith::store_scaled`.
+
+pub mod hand;
+
+use std::collections::{BTreeMap, BTreeSet, HashMap};
+use tfm::ligkern::lang;
+use tfm::ligkern::{CompiledProgram, RunItem, RunOptions};
+use tfm::{Char, FixWord};
 use vcore::*;
+use vmodels::fontarith as fa;
+use vmodels::ligkern as lk;
 
 pub struct M;
 pub static MONITOR: M = M;
+
+/// Bounds of the harness (not of the property): programs whose terminating pair evaluations are
+/// longer than this are not run (counted as skipped); a model run that exceeds `WORD_STEPS` in
+/// a program whose pairs all terminate makes the case INCONCLUSIVE.
+const PAIR_STEPS: u64 = 4_000;
+const PAIR_EMITTED: u64 = 2_000;
+const WORD_STEPS: u64 = 200_000;
+
+const ENUM_OPTIONS: u64 = 18; // none | kern | 8 forms x 2 results
+const ENUM_INNER: u64 = 18 * 18 * 18 * 18;
+const ENUM_BOUNDARY_OPTIONS: u64 = 10; // none | kern | 8 forms inserting 'a'
 
 impl Monitor for M {
     fn id(&self) -> &'static str {
         "C05"
     }
+
     fn rule(&self) -> String {
-        "not built yet".into()
+        "handbuilt: one case per hand-built program of the repository's unit tests (43 run cases of ligkern/mod.rs with their own word, \
+         22 programs of compiler.rs with all words of length <= 3, 9 TeX-verified words on corpus fonts, 9 loop programs of corpus/originals), compared node by node \
+         (lig_ptr originals and boundary flags) with the TeX §1034-1040 transcription. \
+         enum2*: every program over {a,b} with at most one rule per ordered pair (none | KRN | 8 LIG forms x result a/b), optionally x every \
+         left-boundary rule pair or every right-boundary rule pair (none | KRN | 8 forms inserting a), all words of length <= 4, left boundary on and off. \
+         random: alphabet of 3-5 characters from a pool incl. non-ASCII bytes, 1-8 instructions per character drawn from all eight forms with results in the \
+         alphabet, kerns, SKIP n / STOP, shared and mid-chain entry points, optional left-boundary program, boundary character inside or outside the alphabet \
+         or absent, random legal design size; all words of length <= 4 plus random words of length <= 12, each with left boundary on/off and with/without a \
+         right-boundary override. corpus: every .tfm of crates/tfm/corpus that TeX §573 would accept, all pairs of existing characters. \
+         A case (program) is non-trivial if it has at least one LIG rule and one pair evaluation of two or more steps, or a loop; distinct by the hash of \
+         (instructions, entry points, boundaries, design size). Outputs are compared as sequences of (plain character | ligature glyph | kern in sp)."
+            .into()
     }
+
     fn assumptions(&self) -> Vec<String> {
-        vec![]
+        vec![
+            "reference = own transcriptions: cursor interpreter of the TFM lig/kern definition (op = 4a+2b+c), TeX §1034-1040 main loop, TFtoPL §88-95 pair evaluation; kern amounts via own store_scaled (TeX §571-572). Calibrated against the 43 TeX-verified expectations of ligkern/mod.rs, the TeX-verified boxworks-text cases on cmr10/smfebsl10 and Knuth's loop messages recorded in corpus/originals/*.stderr.txt".into(),
+            "generated programs are fonts TeX would load (§573): skips stay inside the program, every entry point is inside, all characters named by rules exist; kerns satisfy |k| < 16, design size in [1pt, 2048pt)".into(),
+            "guard G of DESIGN §6: which originals hang on which ligature node and the two boundary flags are compared per node only on the hand-built programs; on generated programs they are checked through conservation (characters + ligature originals spell the word)".into(),
+            "programs whose terminating pair evaluations need more than 4000 LIG steps or emit more than 2000 items are not run (harness bound, counted under skipped:)".into(),
+            "loop reporting: compile must return at least one InfiniteLoopError iff some rule pair never terminates, and every reported starting pair must itself never terminate; which of several pairs on a cycle is named is not checked".into(),
+        ]
     }
-    fn phases(&self, _tier: Tier) -> Vec<Phase> {
-        vec![]
+
+    fn phases(&self, tier: Tier) -> Vec<Phase> {
+        let mut v = vec![
+            Phase::new("handbuilt", hand_total() as u64).batch(4),
+            Phase::new("enum2", ENUM_INNER)
+                .batch(256)
+                .exhaustive("all lig/kern programs over {a,b} with at most one rule per ordered pair (none | KRN | 8 forms x 2 results), all words of length <= 4, left boundary on/off"),
+        ];
+        if tier == Tier::Thorough {
+            v.push(
+                Phase::new("enum2_left", ENUM_INNER)
+                    .batch(16)
+                    .exhaustive("enum2 x every left-boundary program with at most one rule for (|,a) and (|,b) (none | KRN | 8 forms inserting a), all words of length <= 4"),
+            );
+            v.push(
+                Phase::new("enum2_right", ENUM_INNER)
+                    .batch(16)
+                    .exhaustive("enum2 x every pair of right-boundary rules (a,R) (b,R) (none | KRN | 8 forms inserting a), boundary character R outside the alphabet, all words of length <= 4"),
+            );
+        }
+        v.push(Phase::new("random", tier.pick(20_000, 2_000_000)).batch(64));
+        v.push(Phase::new("corpus", corpus_fonts().len() as u64).batch(1));
+        v
     }
-    fn run_case(&self, _phase: &str, _idx: u64, _rng: &mut Rng, _obs: &mut Obs) {}
+
+    fn floors(&self, tier: Tier) -> Vec<(&'static str, u64)> {
+        vec![
+            ("handbuilt:node_level_runs_equal", 300),
+            ("handbuilt:loop_programs_reported", 9),
+            ("programs:loop_free_compared", tier.pick(60_000, 5_000_000)),
+            ("programs:with_loop_reported", tier.pick(30_000, 5_000_000)),
+            ("programs:loop_free_with_terminating_re-entry", tier.pick(500, 50_000)),
+            ("pairs:diverging_agreed_by_both_models", tier.pick(50_000, 5_000_000)),
+            ("pairs:terminating_multi_step", tier.pick(50_000, 5_000_000)),
+            ("runs:compared", tier.pick(10_000_000, 1_000_000_000)),
+            ("runs:with_ligature", tier.pick(3_000_000, 300_000_000)),
+            ("runs:with_kern", tier.pick(1_000_000, 100_000_000)),
+            ("runs:left_boundary_rule_applied", tier.pick(200_000, 20_000_000)),
+            ("runs:right_boundary_rule_applied", tier.pick(200_000, 20_000_000)),
+            ("runs:right_boundary_consumed", tier.pick(50_000, 5_000_000)),
+            ("runs:right_boundary_override", tier.pick(200_000, 20_000_000)),
+            ("runs:ligature_with_empty_original", tier.pick(500_000, 50_000_000)),
+            ("runs:ligature_with_3+_originals", tier.pick(100_000, 10_000_000)),
+            ("ops:form_0_LIG", tier.pick(100_000, 10_000_000)),
+            ("ops:form_1_LIG/", tier.pick(100_000, 10_000_000)),
+            ("ops:form_2_/LIG", tier.pick(100_000, 10_000_000)),
+            ("ops:form_3_/LIG/", tier.pick(100_000, 10_000_000)),
+            ("ops:form_5_LIG/>", tier.pick(100_000, 10_000_000)),
+            ("ops:form_6_/LIG>", tier.pick(100_000, 10_000_000)),
+            ("ops:form_7_/LIG/>", tier.pick(100_000, 10_000_000)),
+            ("ops:form_11_/LIG/>>", tier.pick(100_000, 10_000_000)),
+            ("corpus:fonts_compared", 40),
+            ("corpus:runs_compared", 1_000_000),
+        ]
+    }
+
+    fn calibrate(&self, obs: &mut Obs) {
+        calibrate(obs)
+    }
+
+    fn run_case(&self, phase: &str, idx: u64, rng: &mut Rng, obs: &mut Obs) {
+        match phase {
+            "handbuilt" => handbuilt_case(idx as usize, obs),
+            "enum2" => enum_case(idx, EnumKind::Plain, obs),
+            "enum2_left" => enum_case(idx, EnumKind::Left, obs),
+            "enum2_right" => enum_case(idx, EnumKind::Right, obs),
+            "random" => random_case(rng, obs),
+            "corpus" => corpus_case(idx as usize, obs),
+            other => obs.inconclusive(format!("unknown phase {other}")),
+        }
+    }
+}
+
+// ------------------------------------------------------------------------------------------
+// what a run produced, in a form common to the real code and the models
+
+#[derive(Clone, Debug, PartialEq, Eq)]
+pub enum RNode {
+    Char(u32),
+    Lig {
+        c: u32,
+        original: Vec<u32>,
+        left_boundary: bool,
+        right_boundary: bool,
+    },
+    Kern(i32),
+}
+
+#[derive(Clone, Copy, Debug, PartialEq, Eq)]
+enum RItem {
+    Char(u32),
+    Lig(u32),
+    Kern(i32),
+}
+
+impl RNode {
+    fn item(&self) -> RItem {
+        match self {
+            RNode::Char(c) => RItem::Char(*c),
+            RNode::Lig { c, .. } => RItem::Lig(*c),
+            RNode::Kern(k) => RItem::Kern(*k),
+        }
+    }
+}
+
+fn fmt_char(c: u32, out: &mut String) {
+    let ok = c < 127 && (c as u8).is_ascii_graphic() && !b"%[]|=~".contains(&(c as u8));
+    if ok {
+        out.push(c as u8 as char);
+    } else {
+        out.push_str(&format!("%{c:02x}"));
+    }
+}
+
+/// Compact notation: `=A` plain character, `~1.0` kern (TeX's print_scaled, pt), `X[orig]`
+/// ligature glyph X with its original characters, `|` in front / behind = left / right boundary
+/// flag.
+pub fn fmt_nodes(nodes: &[RNode]) -> String {
+    let mut out = String::new();
+    for (i, n) in nodes.iter().enumerate() {
+        if i > 0 {
+            out.push(' ');
+        }
+        match n {
+            RNode::Char(c) => {
+                out.push('=');
+                fmt_char(*c, &mut out);
+            }
+            RNode::Kern(k) => {
+                out.push('~');
+                out.push_str(&fa::print_scaled(*k));
+            }
+            RNode::Lig {
+                c,
+                original,
+                left_boundary,
+                right_boundary,
+            } => {
+                if *left_boundary {
+                    out.push('|');
+                }
+                fmt_char(*c, &mut out);
+                out.push('[');
+                for o in original {
+                    fmt_char(*o, &mut out);
+                }
+                out.push(']');
+                if *right_boundary {
+                    out.push('|');
+                }
+            }
+        }
+    }
+    out
+}
+
+fn fmt_word(w: &[u8]) -> String {
+    let mut s = String::new();
+    for c in w {
+        fmt_char(*c as u32, &mut s);
+    }
+    s
+}
+
+fn fmt_left(l: lk::Left) -> String {
+    match l {
+        None => "|".into(),
+        Some(c) => {
+            let mut s = String::new();
+            fmt_char(c as u32, &mut s);
+            s
+        }
+    }
+}
+
+/// Human-readable listing of a program for witnesses.
+fn fmt_prog(p: &lk::Prog) -> Vec<String> {
+    let mut labels: BTreeMap<usize, Vec<String>> = BTreeMap::new();
+    for (c, e) in &p.entry {
+        labels.entry(*e).or_default().push(fmt_left(Some(*c)));
+    }
+    if let Some(e) = p.left_entry {
+        labels.entry(e).or_default().push("BOUNDARYCHAR".into());
+    }
+    let mut out = vec![];
+    if let Some(r) = p.right_boundary {
+        out.push(format!("(BOUNDARYCHAR {})", fmt_left(Some(r))));
+    }
+    for (i, ins) in p.instrs.iter().enumerate() {
+        let mut line = format!("{i:>3}: ");
+        if let Some(ls) = labels.get(&i) {
+            for l in ls {
+                line.push_str(&format!("(LABEL {l}) "));
+            }
+        }
+        match ins.op {
+            lk::Op::Kern(k) => line.push_str(&format!("(KRN {} R {})", fmt_left(Some(ins.right)), fa::print_fix_word(k))),
+            lk::Op::Lig { code, insert } => line.push_str(&format!(
+                "({} {} {})",
+                lk::lig_name(code),
+                fmt_left(Some(ins.right)),
+                fmt_left(Some(insert))
+            )),
+            lk::Op::Stop => line.push_str("(unconditional stop)"),
+        }
+        match ins.skip {
+            None => line.push_str(" (STOP)"),
+            Some(0) => {}
+            Some(n) => line.push_str(&format!(" (SKIP {n})")),
+        }
+        out.push(line);
+    }
+    out
+}
+
+// ------------------------------------------------------------------------------------------
+// the real code
+
+#[derive(Clone, Copy, PartialEq, Eq, Debug, Hash)]
+enum KernMode {
+    /// `Operation::Kern(FixWord)` (PL files)
+    Inline,
+    /// `Operation::KernAtIndex(i)` + kerns array (TFM files)
+    Indexed,
+}
+
+struct Real {
+    compiled: CompiledProgram,
+    /// starting pairs of the reported infinite loops
+    loops: Vec<(lk::Left, u8)>,
+}
+
+fn to_real_program(p: &lk::Prog, mode: KernMode) -> (lang::Program, HashMap<Char, u16>, Vec<FixWord>) {
+    let mut kerns: Vec<FixWord> = vec![];
+    let instructions = p
+        .instrs
+        .iter()
+        .map(|ins| lang::Instruction {
+            next_instruction: ins.skip,
+            right_char: Char(ins.right),
+            operation: match ins.op {
+                lk::Op::Kern(k) => match mode {
+                    KernMode::Inline => lang::Operation::Kern(FixWord(k)),
+                    KernMode::Indexed => {
+                        let i = match kerns.iter().position(|x| x.0 == k) {
+                            Some(i) => i,
+                            None => {
+                                kerns.push(FixWord(k));
+                                kerns.len() - 1
+                            }
+                        };
+                        lang::Operation::KernAtIndex(i as u16)
+                    }
+                },
+                lk::Op::Lig { code, insert } => lang::Operation::Ligature {
+                    char_to_insert: Char(insert),
+                    post_lig_operation: post_lig(code),
+                    post_lig_tag_invalid: false,
+                },
+                lk::Op::Stop => lang::Operation::EntrypointRedirect(0, false),
+            },
+        })
+        .collect();
+    let program = lang::Program {
+        instructions,
+        left_boundary_char_entrypoint: p.left_entry.map(|e| e as u16),
+        right_boundary_char: p.right_boundary.map(Char),
+        passthrough: Default::default(),
+    };
+    let entrypoints = p.entry.iter().map(|(c, e)| (Char(*c), *e as u16)).collect();
+    (program, entrypoints, kerns)
+}
+
+fn post_lig(code: u8) -> lang::PostLigOperation {
+    use lang::PostLigOperation::*;
+    match code {
+        0 => RetainNeitherMoveToInserted,
+        1 => RetainRightMoveToInserted,
+        2 => RetainLeftMoveNowhere,
+        3 => RetainBothMoveNowhere,
+        5 => RetainRightMoveToRight,
+        6 => RetainLeftMoveToInserted,
+        7 => RetainBothMoveToInserted,
+        _ => RetainBothMoveToRight,
+    }
+}
+
+fn lig_code(op: lang::PostLigOperation) -> u8 {
+    use lang::PostLigOperation::*;
+    match op {
+        RetainNeitherMoveToInserted => 0,
+        RetainRightMoveToInserted => 1,
+        RetainLeftMoveNowhere => 2,
+        RetainBothMoveNowhere => 3,
+        RetainRightMoveToRight => 5,
+        RetainLeftMoveToInserted => 6,
+        RetainBothMoveToInserted => 7,
+        RetainBothMoveToRight => 11,
+    }
+}
+
+fn compile_real(p: &lk::Prog, design: i32, mode: KernMode) -> Result<Real, PanicInfo> {
+    let (program, entrypoints, kerns) = to_real_program(p, mode);
+    catch(move || {
+        let (compiled, errors) = CompiledProgram::compile(&program, FixWord(design), &kerns, entrypoints);
+        Real {
+            compiled,
+            loops: errors
+                .iter()
+                .map(|e| (e.starting_pair.0.map(|c| c.0), e.starting_pair.1 .0))
+                .collect(),
+        }
+    })
+}
+
+fn run_real(cp: &CompiledProgram, word: &[u8], left_boundary: bool, rb_override: Option<u8>) -> Result<Vec<RNode>, PanicInfo> {
+    catch(|| {
+        let it = cp.run_with_options(
+            word.iter().map(|b| *b as char),
+            RunOptions {
+                disable_left_boundary: !left_boundary,
+                right_boundary_override: rb_override.map(|b| b as char),
+            },
+        );
+        let mut out = vec![];
+        // the compiled program cannot loop, but a broken one might: bound the iteration
+        for item in it.take(1_000_000) {
+            out.push(match item {
+                RunItem::Char(c) => RNode::Char(c as u32),
+                RunItem::Kern(k) => RNode::Kern(k.0),
+                RunItem::Ligature(l) => RNode::Lig {
+                    c: l.c as u32,
+                    original: l.original.chars().map(|c| c as u32).collect(),
+                    left_boundary: l.includes_left_boundary,
+                    right_boundary: l.includes_right_boundary,
+                },
+            });
+        }
+        out
+    })
+}
+
+// ------------------------------------------------------------------------------------------
+// the models, bundled per program
+
+struct Model<'a> {
+    prog: &'a lk::Prog,
+    table: lk::RuleTable,
+    design: i32,
+    /// pairs whose evaluation never terminates
+    diverging: BTreeSet<(lk::Left, u8)>,
+    on_cycle: BTreeSet<(lk::Left, u8)>,
+    multi_step_pairs: u64,
+    max_steps: u64,
+}
+
+enum ModelBuild<'a> {
+    Ok(Model<'a>),
+    /// pair evaluations exceed the harness bounds
+    TooLong,
+    /// the two formulations disagree (reported through obs.inconclusive)
+    Disagree,
+}
+
+fn build_model<'a>(prog: &'a lk::Prog, design: i32, obs: &mut Obs) -> ModelBuild<'a> {
+    let table = prog.table();
+    let mut pe = lk::PairEval::new(prog);
+    let mut diverging = BTreeSet::new();
+    let mut multi = 0;
+    let mut max_steps = 0;
+    let pairs = prog.rule_pairs();
+    // (b) first: it also tells how long the terminating evaluations are
+    let mut results = vec![];
+    for (l, r, _) in &pairs {
+        let res = pe.pair(*l, *r);
+        if let lk::PairResult::Value { lig_steps, emitted, .. } = res {
+            if lig_steps > PAIR_STEPS || emitted > PAIR_EMITTED {
+                return ModelBuild::TooLong;
+            }
+        }
+        results.push(res);
+    }
+    // (a) the step interpreters on the isolated pair, with a step bound
+    for ((l, r, _), res) in pairs.iter().zip(results.iter()) {
+        let (word, lb): (Vec<u8>, bool) = match l {
+            Some(c) => (vec![*c, *r], false),
+            None => (vec![*r], true),
+        };
+        let mut st = lk::RunStats::default();
+        let a1 = lk::run_cursor(&table, &word, lb, None, PAIR_STEPS + 1, &mut st);
+        let a2 = lk::run_tex(prog, &word, !lb, None, PAIR_STEPS + 1);
+        let agree = match (res, &a1, &a2) {
+            (lk::PairResult::Diverges, Err(_), Err(_)) => true,
+            (lk::PairResult::Value { f, lig_steps, .. }, Ok(items), Ok(nodes)) => {
+                let last = items.last().map(|i| match i {
+                    lk::Item::Char(c) | lk::Item::Lig(c) => Some(*c),
+                    lk::Item::Kern(_) => None,
+                });
+                let same_items = nodes.iter().map(|n| n.item()).eq(items.iter().copied());
+                last == Some(Some(*f)) && st.lig_steps == *lig_steps && same_items
+            }
+            _ => false,
+        };
+        if !agree {
+            obs.inconclusive(format!(
+                "model disagreement on pair ({},{}): TFtoPL evaluation {res:?}, cursor interpreter {a1:?}, TeX loop {:?}; program {:?}",
+                fmt_left(*l),
+                fmt_left(Some(*r)),
+                a2.as_ref().map(|n| n.len()),
+                fmt_prog(prog)
+            ));
+            return ModelBuild::Disagree;
+        }
+        match res {
+            lk::PairResult::Diverges => {
+                diverging.insert((*l, *r));
+            }
+            lk::PairResult::Value { lig_steps, .. } => {
+                if *lig_steps >= 2 {
+                    multi += 1;
+                }
+                max_steps = max_steps.max(*lig_steps);
+            }
+        }
+    }
+    let on_cycle = pe.on_cycle().iter().copied().collect();
+    ModelBuild::Ok(Model {
+        prog,
+        table,
+        design,
+        diverging,
+        on_cycle,
+        multi_step_pairs: multi,
+        max_steps,
+    })
+}
+
+struct ModelRun {
+    nodes: Vec<RNode>,
+    stats: lk::RunStats,
+}
+
+impl<'a> Model<'a> {
+    fn scale(&self, k: i32) -> i32 {
+        fa::store_scaled(k, self.design).expect("generated kerns and design sizes are legal")
+    }
+
+    /// Both step interpreters on a word. `Err` = they disagree or did not finish (INCONCLUSIVE).
+    fn run(&self, word: &[u8], left_boundary: bool, rb_override: Option<u8>) -> Result<ModelRun, String> {
+        let bchar = rb_override.or(self.prog.right_boundary);
+        let mut stats = lk::RunStats::default();
+        let a1 = lk::run_cursor(&self.table, word, left_boundary, bchar, WORD_STEPS, &mut stats)
+            .map_err(|_| "cursor interpreter exceeded the step bound although every pair terminates".to_string())?;
+        let a2 = lk::run_tex(self.prog, word, !left_boundary, bchar, WORD_STEPS)
+            .map_err(|_| "TeX main loop exceeded the step bound although every pair terminates".to_string())?;
+        if !a2.iter().map(|n| n.item()).eq(a1.iter().copied()) {
+            return Err(format!(
+                "cursor interpreter and TeX main loop disagree on word '{}': {:?} vs {:?}",
+                fmt_word(word),
+                a1,
+                a2
+            ));
+        }
+        let nodes = a2
+            .into_iter()
+            .map(|n| match n {
+                lk::Node::Char(c) => RNode::Char(c as u32),
+                lk::Node::Kern(k) => RNode::Kern(self.scale(k)),
+                lk::Node::Lig {
+                    c,
+                    original,
+                    left_boundary,
+                    right_boundary,
+                } => RNode::Lig {
+                    c: c as u32,
+                    original: original.into_iter().map(|c| c as u32).collect(),
+                    left_boundary,
+                    right_boundary,
+                },
+            })
+            .collect();
+        Ok(ModelRun { nodes, stats })
+    }
+}
+
+// ------------------------------------------------------------------------------------------
+// the check of one program
+
+#[derive(Clone, Copy, PartialEq, Eq)]
+enum Level {
+    /// glyphs, kerns and their order + conservation (generated programs, guard G)
+    Sequence,
+    /// additionally lig_ptr originals and boundary flags per node (hand-built programs)
+    Node,
+}
+
+struct RunSpec {
+    word: Vec<u8>,
+    left_boundary: bool,
+    rb_override: Option<u8>,
+}
+
+#[derive(Default)]
+struct ProgramOutcome {
+    has_loop: bool,
+    runs: u64,
+    ok: bool,
+    nontrivial: bool,
+}
+
+fn witness(prog: &lk::Prog, design: i32, extra: Value) -> Value {
+    json!({"program": fmt_prog(prog), "design_size": fa::print_fix_word(design), "detail": extra})
+}
+
+/// Compile with the real code, compare the loop report with the models, and (if loop-free) run
+/// every word spec through the real iterator and the models.
+fn check_program(
+    prog: &lk::Prog,
+    design: i32,
+    mode: KernMode,
+    level: Level,
+    specs: &mut dyn Iterator<Item = RunSpec>,
+    obs: &mut Obs,
+) -> ProgramOutcome {
+    let mut out = ProgramOutcome::default();
+    debug_assert!(prog.well_formed());
+    let model = match build_model(prog, design, obs) {
+        ModelBuild::Ok(m) => m,
+        ModelBuild::TooLong => {
+            obs.skip("pair evaluation longer than the harness bound (4000 steps / 2000 items)");
+            return out;
+        }
+        ModelBuild::Disagree => return out,
+    };
+    let real = match compile_real(prog, design, mode) {
+        Ok(r) => r,
+        Err(p) => {
+            obs.repo_panic(&p, witness(prog, design, json!({"what": "CompiledProgram::compile"})));
+            return out;
+        }
+    };
+    obs.add("pairs:diverging_agreed_by_both_models", model.diverging.len() as u64);
+    obs.add("pairs:terminating_multi_step", model.multi_step_pairs);
+    // ---- loops, both directions
+    let fmt_pairs = |ps: &mut dyn Iterator<Item = (lk::Left, u8)>| -> Vec<String> {
+        ps.map(|(l, r)| format!("({},{})", fmt_left(l), fmt_left(Some(r)))).collect()
+    };
+    if !model.diverging.is_empty() {
+        out.has_loop = true;
+        if real.loops.is_empty() {
+            obs.violation(
+                "loop:not-reported",
+                witness(prog, design, json!({"pairs_that_never_terminate": fmt_pairs(&mut model.diverging.iter().copied()),
+                                             "reported": []})),
+            );
+            return out;
+        }
+        for p in &real.loops {
+            if !model.diverging.contains(p) {
+                obs.violation(
+                    "loop:reported-starting-pair-terminates",
+                    witness(prog, design, json!({"reported": fmt_pairs(&mut real.loops.iter().copied()),
+                                                 "pairs_that_never_terminate": fmt_pairs(&mut model.diverging.iter().copied())})),
+                );
+                return out;
+            }
+            if model.on_cycle.contains(p) {
+                obs.count("loops:reported_pair_is_on_the_cycle");
+            } else {
+                obs.count("loops:reported_pair_only_leads_to_a_cycle");
+            }
+        }
+        obs.count("programs:with_loop_reported");
+        if model.diverging.iter().any(|(l, _)| l.is_none()) {
+            obs.count("programs:loop_through_left_boundary");
+        }
+        if model.diverging.len() > model.on_cycle.len() {
+            obs.count("programs:pair_leading_into_a_loop");
+        }
+        out.ok = true;
+        out.nontrivial = true;
+        return out;
+    }
+    if !real.loops.is_empty() {
+        obs.violation(
+            "loop:reported-but-every-pair-terminates",
+            witness(prog, design, json!({"reported": fmt_pairs(&mut real.loops.iter().copied()),
+                                         "longest_pair_evaluation_steps": model.max_steps})),
+        );
+        return out;
+    }
+    // ---- loop-free: outputs
+    let mut revisit = false;
+    let mut cnt = [0u64; 9];
+    let mut forms = [0u64; 12];
+    for spec in specs {
+        let m = match model.run(&spec.word, spec.left_boundary, spec.rb_override) {
+            Ok(m) => m,
+            Err(e) => {
+                obs.inconclusive(format!("{e}; program {:?}", fmt_prog(prog)));
+                return out;
+            }
+        };
+        let r = match run_real(&real.compiled, &spec.word, spec.left_boundary, spec.rb_override) {
+            Ok(r) => r,
+            Err(p) => {
+                obs.repo_panic(
+                    &p,
+                    witness(prog, design, json!({"what": "CompiledProgram::run_with_options", "word": fmt_word(&spec.word),
+                                                 "left_boundary": spec.left_boundary, "right_boundary_override": spec.rb_override})),
+                );
+                return out;
+            }
+        };
+        out.runs += 1;
+        let detail = |what: &str| {
+            witness(
+                prog,
+                design,
+                json!({"what": what, "word": fmt_word(&spec.word), "left_boundary": spec.left_boundary,
+                       "right_boundary_override": spec.rb_override.map(|c| fmt_left(Some(c))),
+                       "compiled_run": fmt_nodes(&r), "direct_interpretation": fmt_nodes(&m.nodes),
+                       "notation": "=c plain character, ~k kern (pt), g[originals] ligature glyph, | boundary flag"}),
+            )
+        };
+        // glyphs, kerns, order
+        if !r.iter().map(|n| n.item()).eq(m.nodes.iter().map(|n| n.item())) {
+            let kinds_equal = r.len() == m.nodes.len()
+                && r.iter().zip(m.nodes.iter()).all(|(a, b)| match (a.item(), b.item()) {
+                    (RItem::Kern(_), RItem::Kern(_)) => true,
+                    (x, y) => x == y,
+                });
+            let sig = if kinds_equal {
+                "run:kern-amount-differs"
+            } else {
+                "run:glyph-kern-sequence-differs"
+            };
+            obs.violation(sig, detail("the compiled run and the direct interpretation differ as sequences of (character | ligature glyph | kern)"));
+            return out;
+        }
+        // conservation
+        let mut spelled: Vec<u32> = vec![];
+        for n in &r {
+            match n {
+                RNode::Char(c) => spelled.push(*c),
+                RNode::Lig { original, .. } => spelled.extend(original.iter().copied()),
+                RNode::Kern(_) => {}
+            }
+        }
+        if !spelled.iter().copied().eq(spec.word.iter().map(|b| *b as u32)) {
+            obs.violation("run:characters-and-originals-do-not-spell-the-word", detail("plain characters plus ligature originals must spell the input word"));
+            return out;
+        }
+        if level == Level::Node && r != m.nodes {
+            obs.violation("run:node-level-differs-on-hand-built-program", detail("originals per ligature node / boundary flags differ from TeX's main loop"));
+            return out;
+        }
+        // what this run exercised
+        let st = &m.stats;
+        revisit |= st.pair_revisited;
+        let mut ligs = 0;
+        let mut kerns = 0;
+        let mut empty_orig = 0;
+        let mut big_orig = 0;
+        for n in &m.nodes {
+            match n {
+                RNode::Lig { original, .. } => {
+                    ligs += 1;
+                    if original.is_empty() {
+                        empty_orig += 1;
+                    }
+                    if original.len() >= 3 {
+                        big_orig += 1;
+                    }
+                }
+                RNode::Kern(_) => kerns += 1,
+                RNode::Char(_) => {}
+            }
+        }
+        cnt[0] += (ligs > 0) as u64;
+        cnt[1] += (kerns > 0) as u64;
+        cnt[2] += (empty_orig > 0) as u64;
+        cnt[3] += (big_orig > 0) as u64;
+        cnt[4] += (st.left_boundary_steps > 0) as u64;
+        cnt[5] += (st.right_boundary_steps > 0) as u64;
+        cnt[6] += st.right_boundary_consumed as u64;
+        cnt[7] += spec.rb_override.is_some() as u64;
+        cnt[8] += (st.lig_steps >= 8) as u64;
+        for code in lk::LIG_CODES {
+            forms[code as usize] += st.form_steps[code as usize] as u64;
+        }
+        if obs.wants_sample() && ligs > 0 && kerns > 0 && spec.word.len() >= 3 {
+            obs.sample(json!({"program": fmt_prog(prog), "word": fmt_word(&spec.word), "left_boundary": spec.left_boundary,
+                              "right_boundary_override": spec.rb_override, "compiled_run": fmt_nodes(&r),
+                              "direct_interpretation": fmt_nodes(&m.nodes), "lig_steps": st.lig_steps}));
+        }
+    }
+    const NAMES: [&str; 9] = [
+        "runs:with_ligature",
+        "runs:with_kern",
+        "runs:ligature_with_empty_original",
+        "runs:ligature_with_3+_originals",
+        "runs:left_boundary_rule_applied",
+        "runs:right_boundary_rule_applied",
+        "runs:right_boundary_consumed",
+        "runs:right_boundary_override",
+        "runs:with_8+_lig_steps",
+    ];
+    for (n, c) in NAMES.iter().zip(cnt.iter()) {
+        if *c > 0 {
+            obs.add(n, *c);
+        }
+    }
+    for code in lk::LIG_CODES {
+        if forms[code as usize] > 0 {
+            obs.add(&format!("ops:form_{}_{}", code, lk::lig_name(code)), forms[code as usize]);
+        }
+    }
+    obs.add("runs:compared", out.runs);
+    obs.count("programs:loop_free_compared");
+    if revisit {
+        obs.count("programs:loop_free_with_terminating_re-entry");
+    }
+    out.ok = true;
+    out.nontrivial = model.multi_step_pairs > 0;
+    out
+}
+
+fn words_up_to(alphabet: &[u8], max_len: usize) -> Vec<Vec<u8>> {
+    let mut out: Vec<Vec<u8>> = vec![];
+    let mut layer: Vec<Vec<u8>> = vec![vec![]];
+    for _ in 0..max_len {
+        let mut next = vec![];
+        for w in &layer {
+            for c in alphabet {
+                let mut v = w.clone();
+                v.push(*c);
+                next.push(v);
+            }
+        }
+        out.extend(next.iter().cloned());
+        layer = next;
+    }
+    out
+}
+
+fn prog_hash(p: &lk::Prog, design: i32, mode: KernMode) -> u64 {
+    stable_hash(&(p, design, mode))
+}
+
+// ------------------------------------------------------------------------------------------
+// phase: handbuilt
+
+fn hand_total() -> usize {
+    hand::RUN_CASES.len() + hand::COMPILER_PROGRAMS.len() + hand::FONT_CASES.len() + hand::LOOP_CASES.len()
+}
+
+fn handbuilt_case(idx: usize, obs: &mut Obs) {
+    let n_run = hand::RUN_CASES.len();
+    let n_comp = hand::COMPILER_PROGRAMS.len();
+    let n_font = hand::FONT_CASES.len();
+    let design = hand::LIGAROO_DESIGN_SIZE;
+    if idx < n_run {
+        let c = &hand::RUN_CASES[idx];
+        let prog = match hand::parse_ligtable(&hand::expand(c.program), Some(hand::LIGAROO_BOUNDARY)) {
+            Ok(p) => p,
+            Err(e) => return obs.inconclusive(format!("hand-built program {} unreadable: {e}", c.name)),
+        };
+        // the unit test's own word with TeX's default boundaries, node by node
+        let word = c.word.as_bytes().to_vec();
+        let mut specs = vec![RunSpec { word: word.clone(), left_boundary: true, rb_override: None }].into_iter();
+        let o = check_program(&prog, design, KernMode::Inline, Level::Node, &mut specs, obs);
+        if o.ok && !o.has_loop {
+            obs.add("handbuilt:node_level_runs_equal", o.runs);
+            // and what the repository's own test expects (already known to be what TeX does)
+            if let Ok(r) = compile_real(&prog, design, KernMode::Inline).and_then(|r| run_real(&r.compiled, &word, true, None)) {
+                if fmt_nodes(&r) != c.want {
+                    obs.violation(
+                        "handbuilt:differs-from-the-repository's-own-TeX-verified-expectation",
+                        json!({"case": c.name, "word": c.word, "got": fmt_nodes(&r), "want": c.want}),
+                    );
+                }
+            }
+        }
+        // the other words over the program's characters and the other option combinations at sequence level
+        let mut alphabet: BTreeSet<u8> = prog.entry.keys().copied().collect();
+        for ins in &prog.instrs {
+            alphabet.insert(ins.right);
+            if let lk::Op::Lig { insert, .. } = ins.op {
+                alphabet.insert(insert);
+            }
+        }
+        let alphabet: Vec<u8> = alphabet.into_iter().collect();
+        let words = words_up_to(&alphabet, if alphabet.len() <= 4 { 4 } else { 3 });
+        let mut specs = words.into_iter().flat_map(|w| {
+            [true, false].into_iter().map(move |lb| RunSpec { word: w.clone(), left_boundary: lb, rb_override: None })
+        });
+        check_program(&prog, design, KernMode::Indexed, Level::Sequence, &mut specs, obs);
+        obs.nontrivial(&("hand-run", c.name));
+    } else if idx < n_run + n_comp {
+        let (name, text) = hand::COMPILER_PROGRAMS[idx - n_run];
+        // compiler.rs programs have no boundary character
+        let prog = match hand::parse_ligtable(text, None) {
+            Ok(p) => p,
+            Err(e) => return obs.inconclusive(format!("hand-built program {name} unreadable: {e}")),
+        };
+        let alphabet: Vec<u8> = b"ABVWXYZ"
+            .iter()
+            .copied()
+            .filter(|c| prog.entry.contains_key(c) || prog.instrs.iter().any(|i| i.right == *c || matches!(i.op, lk::Op::Lig { insert, .. } if insert == *c)))
+            .collect();
+        let alphabet = if alphabet.is_empty() { vec![b'A'] } else { alphabet };
+        let words = words_up_to(&alphabet, 3);
+        let mut specs = words.into_iter().flat_map(|w| {
+            [true, false].into_iter().map(move |lb| RunSpec { word: w.clone(), left_boundary: lb, rb_override: None })
+        });
+        let o = check_program(&prog, design, KernMode::Inline, Level::Node, &mut specs, obs);
+        if o.ok {
+            obs.add("handbuilt:node_level_runs_equal", o.runs);
+        }
+        obs.nontrivial(&("hand-compiler", name));
+    } else if idx < n_run + n_comp + n_font {
+        let c = &hand::FONT_CASES[idx - n_run - n_comp];
+        font_case(c, obs);
+        obs.nontrivial(&("hand-font", c.font, c.word));
+    } else {
+        let (name, text, _) = hand::LOOP_CASES[idx - n_run - n_comp - n_font];
+        let prog = match hand::parse_ligtable(text, None) {
+            Ok(p) => p,
+            Err(e) => return obs.inconclusive(format!("loop program {name} unreadable: {e}")),
+        };
+        let o = check_program(&prog, design, KernMode::Inline, Level::Node, &mut std::iter::empty(), obs);
+        if o.ok && o.has_loop {
+            obs.count("handbuilt:loop_programs_reported");
+        } else if o.ok {
+            obs.inconclusive(format!("loop program {name}: the models found no loop"));
+        }
+        obs.nontrivial(&("hand-loop", name));
+    }
+}
+
+// ------------------------------------------------------------------------------------------
+// corpus fonts
+
+fn corpus_fonts() -> Vec<std::path::PathBuf> {
+    let root = repo_dir().join("crates/tfm/corpus");
+    let mut out = vec![];
+    for sub in ["computer-modern", "ctan", "originals", "fuzz"] {
+        if let Ok(rd) = std::fs::read_dir(root.join(sub)) {
+            for e in rd.flatten() {
+                let p = e.path();
+                if p.extension().map_or(false, |x| x == "tfm") {
+                    out.push(p);
+                }
+            }
+        }
+    }
+    out.sort();
+    out
+}
+
+struct LoadedFont {
+    file: tfm::File,
+    prog: lk::Prog,
+    design: i32,
+    chars: Vec<u8>,
+}
+
+/// Deserialise a TFM with the repository's reader (not the code under test here) and convert its
+/// raw lig/kern program into the model's form. `Err(reason)`: the font is not one TeX would load
+/// (§573 checks), or cannot be read.
+fn load_font(path: &std::path::Path) -> Result<LoadedFont, String> {
+    let bytes = std::fs::read(path).map_err(|e| format!("unreadable: {e}"))?;
+    let file = match catch(|| tfm::File::deserialize(&bytes).0) {
+        Ok(Ok(f)) => f,
+        Ok(Err(_)) => return Err("not a TFM file".into()),
+        Err(_) => return Err("TFM reader panicked (C10's business)".into()),
+    };
+    let design = file.header.design_size.0;
+    if !fa::design_size_is_legal(design) {
+        return Err("design size outside TeX's range".into());
+    }
+    let chars: Vec<u8> = file.char_dimens.iter().filter(|(_, d)| d.width_index.valid().is_some()).map(|(c, _)| c.0).collect();
+    let exists = |c: u8| chars.binary_search(&c).is_ok();
+    let lp = &file.lig_kern_program;
+    let nl = lp.instructions.len();
+    let bchar = lp.right_boundary_char.map(|c| c.0);
+    let mut prog = lk::Prog {
+        right_boundary: bchar,
+        ..Default::default()
+    };
+    // TeX §573: every instruction of the table is checked
+    for (k, ins) in lp.instructions.iter().enumerate() {
+        let op = match ins.operation {
+            lang::Operation::EntrypointRedirect(target, _) => {
+                if target as usize >= nl {
+                    return Err("§573: redirect address outside the lig/kern table".into());
+                }
+                lk::Op::Stop
+            }
+            lang::Operation::Kern(_) => return Err("unexpected inline kern in a TFM program".into()),
+            lang::Operation::KernAtIndex(i) => {
+                let Some(kern) = file.kerns.get(i as usize) else {
+                    return Err("§573: kern index outside the kern table".into());
+                };
+                if !fa::fix_word_is_storable(kern.0) {
+                    return Err("§571: kern is not a storable fix_word".into());
+                }
+                lk::Op::Kern(kern.0)
+            }
+            lang::Operation::Ligature { char_to_insert, post_lig_operation, post_lig_tag_invalid } => {
+                if post_lig_tag_invalid {
+                    return Err("lig step with nonstandard op code".into());
+                }
+                if !exists(char_to_insert.0) {
+                    return Err("§573: ligature step produces a nonexistent character".into());
+                }
+                lk::Op::Lig { code: lig_code(post_lig_operation), insert: char_to_insert.0 }
+            }
+        };
+        if op != lk::Op::Stop {
+            if Some(ins.right_char.0) != bchar && !exists(ins.right_char.0) {
+                return Err("§573: lig/kern step for a nonexistent character".into());
+            }
+            if let Some(s) = ins.next_instruction {
+                if k + s as usize + 1 >= nl {
+                    return Err("§573: skip leaves the lig/kern table".into());
+                }
+            }
+        }
+        prog.instrs.push(lk::Instr { skip: if op == lk::Op::Stop { None } else { ins.next_instruction }, right: ins.right_char.0, op });
+    }
+    // entry points: lig_kern_start, through a redirect if the first instruction is one (§1039)
+    for (c, e) in file.lig_kern_entrypoints() {
+        if !exists(c.0) {
+            continue;
+        }
+        let e = e as usize;
+        let Some(first) = lp.instructions.get(e) else {
+            return Err("§573: lig/kern start outside the table".into());
+        };
+        let start = match first.operation {
+            lang::Operation::EntrypointRedirect(t, _) => t as usize,
+            _ => e,
+        };
+        if start >= nl {
+            return Err("§573: lig/kern start outside the table".into());
+        }
+        prog.entry.insert(c.0, start);
+    }
+    if let Some(e) = lp.left_boundary_char_entrypoint {
+        if e as usize >= nl {
+            return Err("bchar_label outside the lig/kern table".into());
+        }
+        prog.left_entry = Some(e as usize);
+    }
+    Ok(LoadedFont { file, prog, design, chars })
+}
+
+fn corpus_case(idx: usize, obs: &mut Obs) {
+    let fonts = corpus_fonts();
+    let Some(path) = fonts.get(idx) else {
+        return obs.inconclusive(format!("corpus font #{idx} disappeared"));
+    };
+    let name = path.file_name().unwrap().to_string_lossy().to_string();
+    let mut font = match load_font(path) {
+        Ok(f) => f,
+        Err(_) => {
+            obs.skip("corpus font TeX would not load (or unreadable)");
+            return;
+        }
+    };
+    if font.prog.instrs.is_empty() {
+        obs.count("corpus:fonts_without_lig_kern_program");
+        return;
+    }
+    let model = match build_model(&font.prog, font.design, obs) {
+        ModelBuild::Ok(m) => m,
+        ModelBuild::TooLong => return obs.skip("pair evaluation longer than the harness bound (4000 steps / 2000 items)"),
+        ModelBuild::Disagree => return,
+    };
+    let real = catch(|| {
+        let (compiled, errors) = CompiledProgram::compile_from_tfm_file(&mut font.file);
+        (compiled, errors.len())
+    });
+    let (compiled, n_errors) = match real {
+        Ok(r) => r,
+        Err(p) => return obs.repo_panic(&p, json!({"what": "compile_from_tfm_file", "font": name})),
+    };
+    if (n_errors > 0) != !model.diverging.is_empty() {
+        obs.violation(
+            if n_errors > 0 { "corpus:loop-reported-but-every-pair-terminates" } else { "corpus:loop-not-reported" },
+            json!({"font": name, "errors": n_errors, "diverging_pairs": model.diverging.len()}),
+        );
+        return;
+    }
+    if n_errors > 0 {
+        obs.count("corpus:fonts_with_loop_reported");
+        return;
+    }
+    // all pairs of existing characters, and each single character, left boundary on and off
+    let mut runs = 0u64;
+    let chars = font.chars.clone();
+    let mut words: Vec<Vec<u8>> = chars.iter().map(|c| vec![*c]).collect();
+    for a in &chars {
+        for b in &chars {
+            words.push(vec![*a, *b]);
+        }
+    }
+    // plus the words reachable through rules: triples a b c where (a,b) has a rule
+    for (l, r, _) in font.prog.rule_pairs() {
+        if let Some(l) = l {
+            if chars.binary_search(&r).is_ok() {
+                for c in chars.iter().step_by(7) {
+                    words.push(vec![l, r, *c]);
+                    words.push(vec![*c, l, r]);
+                }
+            }
+        }
+    }
+    for w in &words {
+        for lb in [true, false] {
+            let m = match model.run(w, lb, None) {
+                Ok(m) => m,
+                Err(e) => return obs.inconclusive(format!("{e} (font {name})")),
+            };
+            let r = match run_real(&compiled, w, lb, None) {
+                Ok(r) => r,
+                Err(p) => return obs.repo_panic(&p, json!({"what": "run_with_options", "font": name, "word": fmt_word(w)})),
+            };
+            runs += 1;
+            if !r.iter().map(|n| n.item()).eq(m.nodes.iter().map(|n| n.item())) {
+                obs.violation(
+                    "corpus:glyph-kern-sequence-differs",
+                    json!({"font": name, "word": fmt_word(w), "left_boundary": lb, "compiled_run": fmt_nodes(&r), "direct_interpretation": fmt_nodes(&m.nodes)}),
+                );
+                return;
+            }
+            let spelled: Vec<u32> = r
+                .iter()
+                .flat_map(|n| match n {
+                    RNode::Char(c) => vec![*c],
+                    RNode::Lig { original, .. } => original.clone(),
+                    RNode::Kern(_) => vec![],
+                })
+                .collect();
+            if !spelled.iter().copied().eq(w.iter().map(|b| *b as u32)) {
+                obs.violation(
+                    "corpus:characters-and-originals-do-not-spell-the-word",
+                    json!({"font": name, "word": fmt_word(w), "left_boundary": lb, "compiled_run": fmt_nodes(&r)}),
+                );
+                return;
+            }
+        }
+    }
+    obs.add("corpus:runs_compared", runs);
+    obs.count("corpus:fonts_compared");
+    obs.add("corpus:rule_pairs", font.prog.rule_pairs().len() as u64);
+    obs.nontrivial(&("corpus", &name));
+    if obs.wants_sample() {
+        obs.sample(json!({"font": name, "characters": chars.len(), "rule_pairs": font.prog.rule_pairs().len(), "runs": runs}));
+    }
+}
+
+/// A TeX-verified word on a corpus font (boxworks-text unit tests), node by node. The boundary
+/// flags of these expectations were verified by the repository only up to TeX's ambiguous `|`.
+fn font_case(c: &hand::FontCase, obs: &mut Obs) {
+    let path = repo_dir().join("crates/tfm/corpus").join(c.font);
+    let mut font = match load_font(&path) {
+        Ok(f) => f,
+        Err(e) => return obs.inconclusive(format!("hand-built font case: {} cannot be used: {e}", c.font)),
+    };
+    let model = match build_model(&font.prog, font.design, obs) {
+        ModelBuild::Ok(m) => m,
+        _ => return obs.inconclusive(format!("hand-built font case: no model for {}", c.font)),
+    };
+    let word = c.word.as_bytes();
+    let m = match model.run(word, true, None) {
+        Ok(m) => m,
+        Err(e) => return obs.inconclusive(e),
+    };
+    let real = catch(|| CompiledProgram::compile_from_tfm_file(&mut font.file).0).and_then(|cp| run_real(&cp, word, true, None));
+    match real {
+        Ok(r) => {
+            if r != m.nodes {
+                obs.violation(
+                    "run:node-level-differs-on-hand-built-program",
+                    json!({"font": c.font, "word": c.word, "compiled_run": fmt_nodes(&r), "direct_interpretation": fmt_nodes(&m.nodes)}),
+                );
+            } else {
+                obs.count("handbuilt:node_level_runs_equal");
+            }
+        }
+        Err(p) => obs.repo_panic(&p, json!({"font": c.font, "word": c.word})),
+    }
+}
+
+// ------------------------------------------------------------------------------------------
+// phase: enum2 (exhaustive small programs)
+
+#[derive(Clone, Copy, PartialEq, Eq)]
+enum EnumKind {
+    Plain,
+    Left,
+    Right,
+}
+
+/// option index -> rule: 0 none, 1 kern, 2.. = 8 forms x results
+fn enum_op(option: u64, results: &[u8], kern: i32) -> Option<lk::Op> {
+    match option {
+        0 => None,
+        1 => Some(lk::Op::Kern(kern)),
+        n => {
+            let n = (n - 2) as usize;
+            Some(lk::Op::Lig { code: lk::LIG_CODES[n % 8], insert: results[n / 8] })
+        }
+    }
+}
+
+fn push_block(p: &mut lk::Prog, left: lk::Left, rules: &[(u8, Option<lk::Op>)]) {
+    let start = p.instrs.len();
+    for (right, op) in rules {
+        if let Some(op) = op {
+            p.instrs.push(lk::Instr { skip: Some(0), right: *right, op: *op });
+        }
+    }
+    if p.instrs.len() > start {
+        p.instrs.last_mut().unwrap().skip = None;
+        match left {
+            Some(c) => {
+                p.entry.insert(c, start);
+            }
+            None => p.left_entry = Some(start),
+        }
+    }
+}
+
+fn enum_case(idx: u64, kind: EnumKind, obs: &mut Obs) {
+    let d: Vec<u64> = (0..4).map(|i| idx / ENUM_OPTIONS.pow(i) % ENUM_OPTIONS).collect();
+    let (a, b, r) = (b'a', b'b', b'R');
+    // distinct kern amounts so that a misplaced kern is visible
+    let k = |n: i32| (n * 3 + 1) << 16;
+    let inner = |p: &mut lk::Prog, extra_a: Option<(u8, Option<lk::Op>)>, extra_b: Option<(u8, Option<lk::Op>)>| {
+        let mut ra = vec![(a, enum_op(d[0], &[a, b], k(1))), (b, enum_op(d[1], &[a, b], k(2)))];
+        let mut rb = vec![(a, enum_op(d[2], &[a, b], k(3))), (b, enum_op(d[3], &[a, b], k(4)))];
+        if let Some(x) = extra_a {
+            ra.push(x);
+        }
+        if let Some(x) = extra_b {
+            rb.push(x);
+        }
+        push_block(p, Some(a), &ra);
+        push_block(p, Some(b), &rb);
+    };
+    let words = words_up_to(&[a, b], 4);
+    let design = 10 << 20;
+    let combos: u64 = if kind == EnumKind::Plain { 1 } else { ENUM_BOUNDARY_OPTIONS * ENUM_BOUNDARY_OPTIONS };
+    for combo in 0..combos {
+        let (o1, o2) = (combo % ENUM_BOUNDARY_OPTIONS, combo / ENUM_BOUNDARY_OPTIONS);
+        let mut p = lk::Prog::default();
+        match kind {
+            EnumKind::Plain => inner(&mut p, None, None),
+            EnumKind::Left => {
+                inner(&mut p, None, None);
+                push_block(&mut p, None, &[(a, enum_op(o1, &[a], k(5))), (b, enum_op(o2, &[a], k(6)))]);
+            }
+            EnumKind::Right => {
+                p.right_boundary = Some(r);
+                inner(&mut p, Some((r, enum_op(o1, &[a], k(5)))), Some((r, enum_op(o2, &[a], k(6)))));
+            }
+        }
+        let mut specs = words.iter().flat_map(|w| {
+            [true, false].into_iter().map(move |lb| RunSpec { word: w.clone(), left_boundary: lb, rb_override: None })
+        });
+        let o = check_program(&p, design, KernMode::Inline, Level::Sequence, &mut specs, obs);
+        if o.nontrivial {
+            obs.nontrivial_by_construction(1);
+        }
+    }
+}
+
+// ------------------------------------------------------------------------------------------
+// phase: random
+
+const POOL: [u8; 16] = [b'a', b'b', b'c', b'd', b'e', b'A', b'B', b'1', b'2', b'-', 0x01, 0x7f, 0x80, 0xe9, 0xff, b'f'];
+
+fn random_kern(rng: &mut Rng) -> i32 {
+    match rng.below(6) {
+        0 => *rng.pick(&[0, 1, -1, (16 << 20) - 1, -(16 << 20), 1 << 20, -(1 << 20)]),
+        1 => rng.range_i32(-(16 << 20), (16 << 20) - 1),
+        _ => rng.range_i32(-(1 << 19), 1 << 19),
+    }
+}
+
+fn random_design(rng: &mut Rng) -> i32 {
+    match rng.below(8) {
+        0..=3 => 10 << 20,
+        4 => *rng.pick(&[5, 7, 12, 17, 128, 1000, 2047]) << 20,
+        5 => rng.range_i32(1 << 20, i32::MAX),
+        _ => rng.range_i32(1 << 20, 40 << 20),
+    }
+}
+
+struct Generated {
+    prog: lk::Prog,
+    alphabet: Vec<u8>,
+    /// the boundary character if it is not a letter of the alphabet
+    extra: Option<u8>,
+}
+
+fn generate(rng: &mut Rng) -> Generated {
+    let mut pool = POOL.to_vec();
+    rng.shuffle(&mut pool);
+    let k = rng.range_usize(3, 5);
+    let alphabet: Vec<u8> = pool[..k].to_vec();
+    let (right_boundary, extra) = match rng.below(20) {
+        0..=5 => (None, None),
+        6..=12 => (Some(*rng.pick(&alphabet)), None),
+        _ => (Some(pool[k]), Some(pool[k])),
+    };
+    let mut rights = alphabet.clone();
+    if let Some(e) = extra {
+        rights.push(e);
+        // rules for the boundary as right element should be common
+        rights.push(e);
+    }
+    let lig_share = rng.range_i64(2, 9) as u64;
+    // looping is likelier with the forms that keep the cursor in place; vary their share
+    let calm = rng.chance(1, 2);
+    let mut p = lk::Prog {
+        right_boundary,
+        ..Default::default()
+    };
+    let mut lefts: Vec<lk::Left> = alphabet.iter().map(|c| Some(*c)).filter(|_| rng.chance(4, 5)).collect();
+    if lefts.is_empty() {
+        lefts.push(Some(alphabet[0]));
+    }
+    if rng.chance(2, 5) {
+        lefts.push(None);
+    }
+    rng.shuffle(&mut lefts);
+    let mut block_starts: Vec<usize> = vec![];
+    for left in &lefts {
+        let n = match rng.below(6) {
+            0..=2 => rng.range_usize(1, 3),
+            3 | 4 => rng.range_usize(2, 5),
+            _ => rng.range_usize(4, 8),
+        };
+        let start = p.instrs.len();
+        block_starts.push(start);
+        for i in 0..n {
+            let right = *rng.pick(&rights);
+            let op = if rng.chance(lig_share, 10) {
+                let code = if calm && rng.chance(1, 2) {
+                    *rng.pick(&[0u8, 5, 6, 11])
+                } else {
+                    *rng.pick(&lk::LIG_CODES)
+                };
+                lk::Op::Lig { code, insert: *rng.pick(&alphabet) }
+            } else {
+                lk::Op::Kern(random_kern(rng))
+            };
+            p.instrs.push(lk::Instr { skip: if i + 1 == n { None } else { Some(0) }, right, op });
+        }
+        match left {
+            Some(c) => {
+                p.entry.insert(*c, start);
+            }
+            None => p.left_entry = Some(start),
+        }
+    }
+    let total = p.instrs.len();
+    // SKIP n (may cross into other blocks), early STOP, fall-through into the next block
+    for i in 0..total {
+        match rng.below(24) {
+            0 | 1 => {
+                let room = total - i - 1; // need i + n + 1 < total
+                if room >= 2 {
+                    p.instrs[i].skip = Some(rng.range_usize(1, (room - 1).min(4)) as u8);
+                }
+            }
+            2 => p.instrs[i].skip = None,
+            3 => {
+                if i + 1 < total {
+                    p.instrs[i].skip = Some(0);
+                }
+            }
+            _ => {}
+        }
+    }
+    p.instrs[total - 1].skip = None;
+    // shared / mid-chain entry points
+    for c in &alphabet {
+        if rng.chance(1, 8) {
+            p.entry.insert(*c, rng.usize_below(total));
+        } else if rng.chance(1, 10) {
+            p.entry.insert(*c, *rng.pick(&block_starts));
+        }
+    }
+    if rng.chance(1, 12) {
+        p.left_entry = Some(rng.usize_below(total));
+    }
+    Generated { prog: p, alphabet, extra }
+}
+
+fn random_case(rng: &mut Rng, obs: &mut Obs) {
+    let g = generate(rng);
+    let design = random_design(rng);
+    let mode = if rng.chance(1, 3) { KernMode::Indexed } else { KernMode::Inline };
+    if !g.prog.well_formed() {
+        return obs.inconclusive("generator produced a program outside TeX's domain");
+    }
+    let mut words = words_up_to(&g.alphabet, 4);
+    for _ in 0..40 {
+        let n = rng.range_usize(5, 12);
+        words.push((0..n).map(|_| *rng.pick(&g.alphabet)).collect());
+    }
+    if let Some(e) = g.extra {
+        // the boundary character is a character of the font too: let it occur inside words
+        for _ in 0..20 {
+            let n = rng.range_usize(1, 6);
+            words.push((0..n).map(|_| if rng.chance(1, 3) { e } else { *rng.pick(&g.alphabet) }).collect());
+        }
+    }
+    let mut overrides: Vec<u8> = g.alphabet.clone();
+    if let Some(e) = g.extra {
+        overrides.push(e);
+    }
+    // per word: both left-boundary settings; a right-boundary override for about a third
+    let mut specs_v: Vec<RunSpec> = Vec::with_capacity(words.len() * 3);
+    for w in words {
+        let ov = if rng.chance(1, 3) { Some(*rng.pick(&overrides)) } else { None };
+        for lb in [true, false] {
+            specs_v.push(RunSpec { word: w.clone(), left_boundary: lb, rb_override: None });
+        }
+        if let Some(o) = ov {
+            specs_v.push(RunSpec { word: w, left_boundary: rng.coin(), rb_override: Some(o) });
+        }
+    }
+    let o = check_program(&g.prog, design, mode, Level::Sequence, &mut specs_v.into_iter(), obs);
+    if o.ok {
+        if g.prog.right_boundary.is_some() && g.extra.is_none() {
+            obs.count("programs:boundary_char_inside_alphabet");
+        }
+        if mode == KernMode::Indexed {
+            obs.count("programs:kerns_through_kern_table");
+        }
+    }
+    if o.nontrivial {
+        obs.nontrivial_hash(prog_hash(&g.prog, design, mode));
+    }
+}
+
+// ------------------------------------------------------------------------------------------
+// calibration: the models against the repository's ground truth (no call into the code under test)
+
+fn calibrate(obs: &mut Obs) {
+    let design = hand::LIGAROO_DESIGN_SIZE;
+    // (1) node-level TeX model against the 43 TeX-verified expectations of ligkern/mod.rs
+    for c in hand::RUN_CASES {
+        let prog = match hand::parse_ligtable(&hand::expand(c.program), Some(hand::LIGAROO_BOUNDARY)) {
+            Ok(p) => p,
+            Err(e) => {
+                obs.inconclusive(format!("calibration: program of {} unreadable: {e}", c.name));
+                continue;
+            }
+        };
+        match build_model(&prog, design, obs) {
+            ModelBuild::Ok(m) => match m.run(c.word.as_bytes(), true, None) {
+                Ok(r) => {
+                    let got = fmt_nodes(&r.nodes);
+                    if got != c.want {
+                        obs.inconclusive(format!(
+                            "calibration: TeX-loop model gives '{got}' for unit test {} on '{}', TeX (per the repository's verified expectation) gives '{}'",
+                            c.name, c.word, c.want
+                        ));
+                    } else {
+                        obs.count("calibration:tex_verified_runs_reproduced_node_by_node");
+                    }
+                }
+                Err(e) => obs.inconclusive(format!("calibration: {} : {e}", c.name)),
+            },
+            ModelBuild::TooLong => obs.inconclusive(format!("calibration: {} exceeds the harness bound", c.name)),
+            ModelBuild::Disagree => {}
+        }
+    }
+    // (2) the same on the corpus fonts used by boxworks-text (read at run time; the TFM reader
+    // is used only to obtain the raw program)
+    for c in hand::FONT_CASES {
+        let path = repo_dir().join("crates/tfm/corpus").join(c.font);
+        let font = match load_font(&path) {
+            Ok(f) => f,
+            Err(e) => {
+                obs.inconclusive(format!("calibration: {} cannot be used: {e}", c.font));
+                continue;
+            }
+        };
+        if let ModelBuild::Ok(m) = build_model(&font.prog, font.design, obs) {
+            match m.run(c.word.as_bytes(), true, None) {
+                Ok(r) if fmt_nodes(&r.nodes) == c.want => obs.count("calibration:tex_verified_font_runs_reproduced"),
+                Ok(r) => obs.inconclusive(format!(
+                    "calibration: model gives '{}' for '{}' in {}, TeX gives '{}'",
+                    fmt_nodes(&r.nodes),
+                    c.word,
+                    c.font,
+                    c.want
+                )),
+                Err(e) => obs.inconclusive(format!("calibration: {e}")),
+            }
+        }
+    }
+    // (3) loop detection against Knuth's own messages
+    for (name, text, knuth_pair) in hand::LOOP_CASES {
+        let prog = match hand::parse_ligtable(text, None) {
+            Ok(p) => p,
+            Err(e) => {
+                obs.inconclusive(format!("calibration: loop program {name} unreadable: {e}"));
+                continue;
+            }
+        };
+        if let ModelBuild::Ok(m) = build_model(&prog, design, obs) {
+            if m.diverging.contains(knuth_pair) && m.on_cycle.contains(knuth_pair) {
+                obs.count("calibration:knuth_loop_messages_reproduced");
+            } else {
+                obs.inconclusive(format!(
+                    "calibration: Knuth reports a loop starting with {knuth_pair:?} for {name}; model: diverging {:?}, on cycle {:?}",
+                    m.diverging, m.on_cycle
+                ));
+            }
+        }
+    }
+    // (4) the compiler.rs programs and the hand-built run cases have no loop
+    for (name, text) in hand::COMPILER_PROGRAMS {
+        if let Ok(prog) = hand::parse_ligtable(text, None) {
+            if let ModelBuild::Ok(m) = build_model(&prog, design, obs) {
+                if !m.diverging.is_empty() {
+                    obs.inconclusive(format!("calibration: model finds a loop in compiler.rs program {name}"));
+                } else {
+                    obs.count("calibration:loop_free_programs_confirmed");
+                }
+            }
+        }
+    }
 }
